@@ -71,6 +71,8 @@ def _mk(sg, sign, op):
     for g, ar in ((gr, 2), (gc, 2), (gs, 2), (gu, 4), (gx, 4)):      # markers "unfold the definition of g here" (ext (4))
         macro("d" + g, list("abux")[:ar], "True", py=lambda *a: True, opaque=(["real"] * ar, "bool"))
 
+    macro("stp05" + sg, ["k"], "True", py=lambda k: True, opaque=(["int"], "bool"))   # marker "unfold rotation k here" (ext (8))
+
     A = [("U", "real[2]"), ("x", "real[1]")]
     xk = lambda k, j: "%s(U, x, %s, %s)" % (X, k, j)
     uk = lambda k, j: "%s(U, x, %s, %s)" % (UU, k, j)
@@ -201,7 +203,8 @@ def _kernel(key, sg, sign, op, X, UU, OK):
                    "assert_at": {5: ["Ukk != 0", "%s(Ukk, xk) != 0" % gc,
                                      "d%s(Ukk, xk) and r == %s(Ukk, xk)" % (gr, gr), "d%s(Ukk, xk) and c == %s(Ukk, xk)" % (gc, gc),
                                      "d%s(Ukk, xk) and s == %s(Ukk, xk)" % (gs, gs), "c != 0"],
-                                 8: ["forall(k + 1, n, lambda j: d%s(%s) and U[k, j] == %s(%s), pat=U[k, j])" % (gu, rot, gu, rot),
+                                 8: ["stp05%s(k)" % sg,
+                                     "forall(k + 1, n, lambda j: d%s(%s) and U[k, j] == %s(%s), pat=U[k, j])" % (gu, rot, gu, rot),
                                      "forall(k + 1, n, lambda j: d%s(%s) and x[j] == %s(%s), pat=x[j])" % (gx, rot, gx, rot)]}}},
         ghost_at={3: ["x[n - 1] == %s" % xk("n - 1", "n - 1"), "U[n - 1, n - 1] == old(U)[n - 1, n - 1]"], 4: ghost_end},
         sentence={"sumto": "the rank-one Cholesky %s kernel returns the upper-triangular factor of U^T U %s x x^T"
